@@ -284,6 +284,8 @@ func makeUpdater(op *Op, rec *[]updRecord) func(*document.Document) *document.Do
 		}
 		*rec = append(*rec, updRecord{d.ObjectId(), val.CloneMap(DocFromClover(d))})
 		switch op.UpdStyle {
+		case "nil":
+			return nil
 		case "copy":
 			c := d.Copy()
 			for _, k := range keys {
@@ -436,6 +438,10 @@ func (e *Exec) stepBulk(op *Op, mc *model.Coll) {
 	}
 	feats := e.queryFeatures(q)
 	props := idxProps([]string{"C03", "C01"}, feats)
+	if op.K == "UpdateFunc" && op.UpdStyle == "nil" {
+		e.stepBulkNil(op, mc, props, feats)
+		return
+	}
 	for k := range op.Upd {
 		if k == "_id" || strings.HasPrefix(k, "_id.") {
 			props = append(props, "C12") // an update aimed at _id: whatever goes wrong also concerns key/_id agreement
@@ -736,6 +742,100 @@ func (e *Exec) stepBulk(op *Op, mc *model.Coll) {
 		e.noEffect(before, what, nil)
 	case outCrashed:
 		e.settleCrashBulk(op, settle)
+	}
+}
+
+// stepBulkNil: an update function that returns nil for every document. The
+// shipped code removes such a document; the properties do not say so, therefore
+// the oracle accepts, per matched document, "removed" or "left as it was" (and a
+// refusal of the whole call without effect) and demands what they do say: the
+// function runs once per matched document on its pre-call value, no other
+// document is touched, and counts and indexes agree with what is stored afterwards.
+func (e *Exec) stepBulkNil(op *Op, mc *model.Coll, props []string, feats map[string]string) {
+	what := op.Brief()
+	q := op.Q
+	matching := mc.Matching(q.Crit)
+	before := e.snap(true)
+	var rec []updRecord
+	err := e.invokeBulk(op, &rec)
+	switch e.judge(err, "maybe", props, what) {
+	case outOK:
+		e.probe("update-function-returns-nil")
+		got, _, rerr := e.readColl(q.Coll)
+		if e.V != nil {
+			return
+		}
+		if rerr != nil {
+			e.fail(append(append([]string{}, props...), "C11"), "C01/readback-error", fmt.Sprintf("after %s: %v", what, rerr), feats)
+			return
+		}
+		matched := map[string]bool{}
+		for _, id := range matching {
+			matched[id] = true
+		}
+		cnt := map[string]int{}
+		for _, r := range rec {
+			cnt[r.id]++
+			if pre, ok := mc.Docs[r.id]; ok && cnt[r.id] == 1 && !val.Equal(pre, r.doc) {
+				e.fail(props, "C03/callback-value", fmt.Sprintf("%s: callback received %s instead of the pre-call value %s", what, val.String(r.doc), val.String(pre)), feats)
+				return
+			}
+		}
+		ids := make([]string, 0, len(cnt))
+		for id := range cnt {
+			ids = append(ids, id)
+		}
+		sort.Strings(ids)
+		for _, id := range ids {
+			if !matched[id] {
+				e.fail(props, "C03/callback-count", fmt.Sprintf("%s: the update function ran on document %s which does not match", what, id), feats)
+				return
+			}
+		}
+		for _, id := range matching {
+			if cnt[id] != 1 {
+				e.fail(props, "C03/callback-count", fmt.Sprintf("%s: the update function ran %d times on matched document %s", what, cnt[id], id), feats)
+				return
+			}
+		}
+		for _, id := range mc.IDs() {
+			g, ok := got[id]
+			switch {
+			case !ok && matched[id]:
+				delete(mc.Docs, id)
+			case !ok:
+				e.fail(props, "C03/lost-document", fmt.Sprintf("after %s: unmatched document %s disappeared", what, id), feats)
+				return
+			case !val.Equal(g, mc.Docs[id]):
+				e.fail(props, "C03/touched-unmatched", fmt.Sprintf("after %s: %s", what, describeDocDiff(id, mc.Docs[id], g)), feats)
+				return
+			}
+		}
+		for id := range got {
+			if _, ok := mc.Docs[id]; !ok {
+				e.fail(props, "C03/matched-not-removed", fmt.Sprintf("after %s: document %s appeared", what, id), feats)
+				return
+			}
+		}
+		e.afterWrite(q.Coll, props, what)
+	case outFailed, outCapacity:
+		e.noEffect(before, what, nil)
+	case outCrashed:
+		// either nothing happened or every matched document is gone or kept: settle by reading
+		e.restartAfterCrash()
+		if e.V != nil {
+			return
+		}
+		got, _, rerr := e.readColl(q.Coll)
+		if e.V != nil || rerr != nil {
+			return
+		}
+		for _, id := range matching {
+			if _, ok := got[id]; !ok {
+				delete(mc.Docs, id)
+			}
+		}
+		e.compareAllAs([]string{"C05"}, "C05/crash-atomicity", what+" (crashed)")
 	}
 }
 
